@@ -8,15 +8,18 @@ from vcheck import *
 
 P = "Cppcms.C04.Props."
 OBLIGATIONS = [
+    (P + "filter_validates", "FilterValidates: for all rule sets with RulesOk (and HtmlCaseOk in HTML mode), both methods, all byte strings x: "
+                             "validate r (filter r m x) = true  [clause 1, XHTML and HTML, remove and escape, arbitrary attribute predicates]"),
+    (P + "filter_output_whitelisted", "for the same r, m, x: every markup candidate the independent lenient tokenizer finds in filter r m x is Allowed by r"),
     (P + "valid_is_fixed_point", "for all rules, methods, x: validate r x = true -> filter r m x = x"),
     (P + "validateAndFilter_none_iff", "validate_and_filter_if_invalid returns true (output untouched) iff validate does"),
     (P + "whitelist_only", "for all rules (arbitrary attribute predicates), y: validate r y = true -> every markup candidate the "
                            "independent lenient tokenizer finds in y is Allowed by r"),
-    (P + "whitelisted_of_filterValidates", "FilterValidates -> FilterOutputWhitelisted (composition of clause 1 with whitelist_only)"),
-    (P + "filter_validates_partial", "XHTML rule sets (r.xhtml = true), RulesOk r: for all inputs x and both methods, validate r (filter r m x) = true "
-                                     "[HTML mode not proved: judge-only]"),
-    (P + "filter_output_whitelisted_partial", "XHTML rule sets: every markup candidate of filter r m x (lenient tokenizer) is Allowed"),
-    (P + "filter_idempotent_partial", "XHTML rule sets: filter r m' (filter r m x) = filter r m x"),
+    (P + "filter_idempotent", "filter r m' (filter r m x) = filter r m x"),
+    (P + "filter_validates_xhtml", "XHTML instance: only RulesOk needed"),
+    (P + "mkRules_hypotheses", "every rule set built by the add_* calls (mkRules) satisfies RulesOk and, in HTML mode, HtmlCaseOk"),
+    (P + "filter_validates_mkRules", "hence validate (filter x) = true for every rule set the add_* calls can build, any verdicts of the external validators"),
+    (P + "htmlCaseOk_needed_counterexample", "the HtmlCaseOk hypothesis cannot be dropped for the abstract Rules type (concrete witness, by decide)"),
     (P + "exRules_ok", "non-vacuity: a concrete rule set satisfying RulesOk (examples in Props.lean evaluate validate/filter on it)"),
 ]
 
